@@ -68,18 +68,38 @@ def _is_unix_epoch(t):
     return False
 
 
-def check_from_datetime_timedelta(ck, fn, dt, ld, lm, td):
-    """integer path: delta = (the datetime, as an aware UTC instant) - Unix epoch; days = delta.days + 4383,
-    ms = delta.seconds * 1000 + delta.microseconds // 1000 (timedelta is normalised: 0 <= seconds < 86400, 0 <= us < 10^6,
-    days floored - correct before 1970 and exact for every microsecond value)"""
-    D = td[0].a[1]
+def find_delta(*terms):
+    """the sub-term (X - <aware datetime 1970-01-01T00:00:00Z>) the stored values are computed from, if any"""
+    for t in terms:
+        for x in subterms(t):
+            if x.k == "op" and x.a[0] == "-" and _is_unix_epoch(x.a[2]):
+                return x
+    return None
+
+
+def _is_one_ms(t):
+    """datetime.timedelta(milliseconds=1) (or microseconds=1000)"""
+    if t.k != "call" or not t.a[0].endswith("timedelta"):
+        return False
+    kws = {a.a[0]: a.a[1] for a in t.a[1] if a.k == "kw"}
+    pos = [a for a in t.a[1] if a.k != "kw"]
+    if pos:
+        return False
+    return (set(kws) == {"milliseconds"} and D_const(kws["milliseconds"], 1)) or (set(kws) == {"microseconds"} and D_const(kws["microseconds"], 1000))
+
+
+def check_from_datetime_timedelta(ck, fn, dt, ld, lm, D):
+    """integer path: delta = (the datetime, as an aware UTC instant) - Unix epoch.  Recognised forms (proved):
+      fields:    days = delta.days + 4383, ms = delta.seconds * 1000 + delta.microseconds // 1000 (timedelta is normalised:
+                 0 <= seconds < 86400, 0 <= us < 10^6, days floored - correct before 1970, exact for every microsecond value)
+      total ms:  T = delta // timedelta(milliseconds=1) (an int, floored); days = T // 86400000 + 4383, ms = T % 86400000
+    Any other form is evaluated on witness timedeltas: a differing one refutes, agreement leaves the obligation undecided."""
+    import datetime as _dt
     # timedelta witnesses (days, seconds, microseconds since the Unix epoch): sub-millisecond parts on both sides of .5,
     # the last microsecond of a day, a whole millisecond, before 1970
     wit = ((18262, 43200, 1000), (18262, 43200, 1600), (18262, 86399, 999999), (-1675, 86399, 999700), (0, 0, 0), (22000, 1, 999499))
 
     def semantic(lin, want, what, shape_ok, detail):
-        """pattern matched -> proved; otherwise evaluate on the witnesses: a differing one refutes (the datetime is
-        the Unix epoch plus that timedelta), agreement on all of them leaves the obligation undecided"""
         if shape_ok:
             ck.proved("I-INT", fn, what, detail)
             return
@@ -87,7 +107,7 @@ def check_from_datetime_timedelta(ck, fn, dt, ld, lm, td):
             from ..decode_rules import lin_term
             t = lin_term(lin)
             for d_, s_, us_ in wit:
-                got = _feval(t, None, {"days": d_, "seconds": s_, "microseconds": us_})
+                got = _feval(t, None, {"days": d_, "seconds": s_, "microseconds": us_}, delta=(D, _dt.timedelta(days=d_, seconds=s_, microseconds=us_)))
                 if got != want(d_, s_, us_):
                     ck.refuted("I-INT", fn, what, f"for the datetime 1970-01-01T00:00:00Z + timedelta(days={d_}, seconds={s_}, microseconds={us_}) the stored value "
                                f"evaluates to {got}, reference {want(d_, s_, us_)} ({detail})", witness={"days": d_, "seconds": s_, "microseconds": us_})
@@ -97,32 +117,33 @@ def check_from_datetime_timedelta(ck, fn, dt, ld, lm, td):
             return
         ck.unknown("I-INT", fn, what, f"unrecognised form {detail}; agrees with the reference on {len(wit)} witnesses but is not proven equal")
 
-    shape = len(ld.co) == 1 and ld.co[td[0]] == 1 and ld.c == 4383
-    semantic(ld, lambda d_, s_, us_: d_ + 4383, "day count == (datetime - Unix epoch).days + 4383 (timedelta days are floored: correct before 1970)", shape, f"{ld!r}")
-    secs = [a for a in lm.co if a.k == "bound?" and a.a[0] == "seconds"]
-    sub = [a for a in lm.co if a.k == "op" and a.a[0] == "//" and a.a[1].k == "bound?" and a.a[1].a[0] == "microseconds" and D_const(a.a[2], 1000)]
+    MSD = 86400000
+    td = [a for a in ld.co if a.k == "bound?" and a.a[0] == "days" and a.a[1] == D]
+    tot = [a for a in ld.co if a.k == "op" and a.a[0] == "//" and D_const(a.a[2], MSD) and a.a[1].k == "op" and a.a[1].a[0] == "//" and a.a[1].a[1] == D and _is_one_ms(a.a[1].a[2])]
+    shape = (len(ld.co) == 1 and ld.c == 4383) and ((len(td) == 1 and ld.co[td[0]] == 1) or (len(tot) == 1 and ld.co[tot[0]] == 1))
+    semantic(ld, lambda d_, s_, us_: d_ + 4383, "day count == (datetime - Unix epoch) in whole days (floored: correct before 1970) + 4383", shape, f"{ld!r}")
+    secs = [a for a in lm.co if a.k == "bound?" and a.a[0] == "seconds" and a.a[1] == D]
+    sub = [a for a in lm.co if a.k == "op" and a.a[0] == "//" and a.a[1].k == "bound?" and a.a[1].a[0] == "microseconds" and a.a[1].a[1] == D and D_const(a.a[2], 1000)]
     shape = len(lm.co) == 2 and len(secs) == 1 and len(sub) == 1 and lm.co[secs[0]] == 1000 and lm.co[sub[0]] == 1 and lm.c == 0
+    if not shape and tot:
+        rem = [a for a in lm.co if a.k == "op" and a.a[0] == "%" and D_const(a.a[2], MSD) and a.a[1] == tot[0].a[1]]
+        shape = len(lm.co) == 1 and len(rem) == 1 and lm.co[rem[0]] == 1 and lm.c == 0
     semantic(lm, lambda d_, s_, us_: s_ * 1000 + us_ // 1000,
-             "ms of day == delta.seconds * 1000 + delta.microseconds // 1000 (integer arithmetic: exact for every whole-millisecond datetime)", shape, f"{lm!r}")
-    others = {a.a[1] for l in (ld, lm) for x in l.co for a in subterms(x) if a.k == "bound?" and a.a[0] in ("days", "seconds", "microseconds")}
-    ck.verdict("I-INT", fn, "days, seconds and microseconds are taken of one timedelta value", [] if others == {D} else [f"{len(others)} different timedelta terms"], show(D)[:80])
+             "ms of day == whole milliseconds of (datetime - Unix epoch) below one day (integer arithmetic: exact for every whole-millisecond datetime)", shape, f"{lm!r}")
+    others = {x for l in (ld, lm) for y in l.co for x in subterms(y) if x.k == "op" and x.a[0] == "-" and _is_unix_epoch(x.a[2])}
+    ck.verdict("I-INT", fn, "day count and millisecond are taken of one timedelta value", [] if others == {D} else [f"{len(others)} different timedelta terms"], show(D)[:80])
     probs = []
-    if not (D.k == "op" and D.a[0] == "-"):
-        probs.append(f"the timedelta is {show(D)[:80]}, not a difference of two datetimes")
-    else:
-        left, right = D.a[1], D.a[2]
-        if not _is_unix_epoch(right):
-            probs.append(f"subtrahend is {show(right)[:80]}; reference the aware datetime 1970-01-01T00:00:00Z")
-        inst = left
-        if inst.k == "call" and inst.a[0] == ".astimezone" and len(inst.a[1]) >= 1:
-            inst = inst.a[1][0]      # conversion to another zone keeps the instant
-        if inst != dt:
-            if left.k == "call" and left.a[0] == ".replace" and left.a[1] and left.a[1][0] == dt:
-                probs.append(f"minuend is {show(left)[:80]}: replace() relabels the zone, so an aware datetime with a non-zero UTC offset becomes another instant; "
-                             "reference the datetime passed in (or its astimezone() conversion)")
-            else:
-                ck.unknown("K-CONST", fn, "the timedelta is (datetime passed in) - 1970-01-01T00:00:00Z", f"unrecognised minuend {show(left)[:100]}")
-                return
+    left, right = D.a[1], D.a[2]
+    inst = left
+    if inst.k == "call" and inst.a[0] == ".astimezone" and len(inst.a[1]) >= 1:
+        inst = inst.a[1][0]      # conversion to another zone keeps the instant
+    if inst != dt:
+        if left.k == "call" and left.a[0] == ".replace" and left.a[1] and left.a[1][0] == dt:
+            probs.append(f"minuend is {show(left)[:80]}: replace() relabels the zone, so an aware datetime with a non-zero UTC offset becomes another instant; "
+                         "reference the datetime passed in (or its astimezone() conversion)")
+        else:
+            ck.unknown("K-CONST", fn, "the timedelta is (datetime passed in) - 1970-01-01T00:00:00Z", f"unrecognised minuend {show(left)[:100]}")
+            return
     ck.verdict("K-CONST", fn, "the timedelta is (datetime passed in) - 1970-01-01T00:00:00Z", probs, show(D)[:100])
 
 
@@ -130,19 +151,31 @@ def D_const(t, v):
     return t.k == "const" and t.a[0] == v
 
 
-def _feval(t, u, td=None):
+def _feval(t, u, td=None, delta=None):
     """evaluate an arithmetic expression of the interpreter over the Unix timestamp u (calls: floor/ceil/round/int,
-    .timestamp()) and, when given, the timedelta fields td = {'days':..,'seconds':..,'microseconds':..}"""
+    .timestamp()) and, when given, the timedelta fields td = {'days':..,'seconds':..,'microseconds':..}; delta =
+    (term, datetime.timedelta) gives the value of the (datetime - epoch) term for timedelta arithmetic"""
     import math as _m
+    import datetime as _dt
+    if delta is not None and t == delta[0]:
+        return delta[1]
     if t.k == "const":
         return t.a[0]
+    if t.k == "bound?" and delta is not None and t.a[0] in ("days", "seconds", "microseconds"):
+        return getattr(_feval(t.a[1], u, td, delta), t.a[0])
     if t.k == "bound?" and td is not None and t.a[0] in td:
         return td[t.a[0]]
     if t.k == "call":
         name = t.a[0].split(".")[-1]
         if name == "timestamp":
             return u
-        args = [_feval(a, u, td) for a in t.a[1]]
+        if name == "timedelta":
+            pos = [_feval(a, u, td, delta) for a in t.a[1] if a.k != "kw"]
+            kws = {a.a[0]: _feval(a.a[1], u, td, delta) for a in t.a[1] if a.k == "kw"}
+            return _dt.timedelta(*pos, **kws)
+        if name == "total_seconds" and len(t.a[1]) == 1:
+            return _feval(t.a[1][0], u, td, delta).total_seconds()
+        args = [_feval(a, u, td, delta) for a in t.a[1]]
         if name in ("floor", "ceil", "trunc"):
             return getattr(_m, name)(*args)
         if name == "round":
@@ -151,12 +184,12 @@ def _feval(t, u, td=None):
             return {"int": int, "float": float}[name](*args)
         raise ValueError(f"call {t.a[0]}")
     if t.k == "un":
-        x = _feval(t.a[1], u, td)
+        x = _feval(t.a[1], u, td, delta)
         return {"int": int, "-": lambda v: -v, "abs": abs, "float": float}[t.a[0]](x)
     if t.k == "op":
         import operator as _o
         f = {"+": _o.add, "-": _o.sub, "*": _o.mul, "/": _o.truediv, "//": _o.floordiv, "%": _o.mod}[t.a[0]]
-        return f(_feval(t.a[1], u, td), _feval(t.a[2], u, td))
+        return f(_feval(t.a[1], u, td, delta), _feval(t.a[2], u, td, delta))
     raise ValueError(f"term {t.k}")
 
 
@@ -168,21 +201,43 @@ _FLOAT_WITNESSES = ((1577880000.001, 1000), (1577880000.998, 998000), (157788000
 def check_from_datetime_float(ck, fn, ld, lm, mterm):
     """float path (through datetime.timestamp()): floor division convention as before, and the sub-second part is
     evaluated on witness timestamps - a truncated or rounded float product is not the millisecond of the datetime"""
+    import math as _m0
+    from ..decode_rules import lin_term
+
+    def by_witness(lin, want, what, problem):
+        """an unrecognised form is not a violation by itself: it is evaluated on the witness timestamps; a differing one
+        refutes (with that timestamp), agreement leaves the obligation undecided"""
+        try:
+            t = lin_term(lin)
+            for u, usec in _FLOAT_WITNESSES + ((-1.0, 0), (86399.0, 0), (-86401.0, 0)):
+                got = _feval(t, u)
+                if got != want(u, usec):
+                    ck.refuted("I-INT", fn, what, f"{problem}; for the datetime with timestamp() == {u!r} it evaluates to {got}, reference {want(u, usec)}", witness={"unix_seconds": u})
+                    return
+        except Exception as e:  # noqa: BLE001
+            ck.unknown("I-INT", fn, what, f"{problem}; not evaluable: {e}")
+            return
+        ck.unknown("I-INT", fn, what, f"{problem}; it agrees with the reference on the witness timestamps but is not proven equal")
+
     qd = [a for a in ld.co if a.k == "op" and a.a[0] == "//"]
-    probs = []
     full = None
+    what = "day count == (floored unix seconds) // 86400 + 4383 (floor division, correct before 1970)"
     if len(ld.co) != 1 or len(qd) != 1 or ld.co[qd[0]] != 1 or not D_const(qd[0].a[2], 86400) or ld.c != 4383:
-        probs.append(f"day count is {ld!r}; reference floor(unix_seconds) // 86400 + 4383")
+        by_witness(ld, lambda u, us: int(_m0.floor(u)) // 86400 + 4383, what, f"day count is {ld!r}; reference floor(unix_seconds) // 86400 + 4383")
     else:
         full = qd[0].a[1]
-    ck.verdict("I-INT", fn, "day count == (floored unix seconds) // 86400 + 4383 (floor division, correct before 1970)", probs, f"{ld!r}")
+        ck.proved("I-INT", fn, what, f"{ld!r}")
     probs = []
     rem = [a for a in lm.co if a.k == "op" and a.a[0] == "%"]
+    what = "ms of day == ((floored unix seconds) % 86400)*1000 + sub-second part, same dividend as the day count"
     if len(rem) != 1 or lm.co[rem[0]] != 1000 or not D_const(rem[0].a[2], 86400) or lm.c != 0:
-        probs.append(f"millisecond of day is {lm!r}; reference ((floored unix seconds) % 86400) * 1000 + sub-second ms")
+        by_witness(lm, lambda u, us: (int(_m0.floor(u)) % 86400) * 1000 + us // 1000, what, f"millisecond of day is {lm!r}; reference ((floored unix seconds) % 86400) * 1000 + sub-second ms")
+        rem = []
     elif full is not None and rem[0].a[1] != full:
-        probs.append(f"quotient and remainder are taken of different values: {show(full)[:50]} vs {show(rem[0].a[1])[:50]}")
-    ck.verdict("I-INT", fn, "ms of day == ((floored unix seconds) % 86400)*1000 + sub-second part, same dividend as the day count", probs, f"{lm!r}")
+        by_witness(lm, lambda u, us: (int(_m0.floor(u)) % 86400) * 1000 + us // 1000, what, f"quotient and remainder are taken of different values: {show(full)[:50]} vs {show(rem[0].a[1])[:50]}")
+        rem = []
+    else:
+        ck.proved("I-INT", fn, what, f"{lm!r}")
     if full is not None:
         ok = (full.k == "un" and full.a[0] == "int" and full.a[1].k == "call" and full.a[1].a[0].split(".")[-1] == "floor") or (full.k == "call" and full.a[0].split(".")[-1] == "floor")
         ck.verdict("I-INT", fn, "the dividend is int(math.floor(unix seconds))", [] if ok else [show(full)[:60]], show(full)[:50])
@@ -392,9 +447,9 @@ def run(ck):
         fn = "CdsShortTimestamp.from_datetime"
         dterm, mterm = read_path(it, env, r, "ccsds_days"), read_path(it, env, r, "ms_of_day")
         ld, lm = linearize(dterm), linearize(mterm)
-        td = [a for a in ld.co if a.k == "bound?" and a.a[0] == "days"]
-        if td:
-            check_from_datetime_timedelta(ck, fn, dt, ld, lm, td)
+        delta = find_delta(dterm, mterm)
+        if delta is not None:
+            check_from_datetime_timedelta(ck, fn, dt, ld, lm, delta)
         else:
             check_from_datetime_float(ck, fn, ld, lm, mterm)
     ck.floor("C14 obligations", len(ck.obs), 40)
